@@ -14,6 +14,7 @@ package main
 
 import (
 	"bufio"
+	"bytes"
 	"encoding/hex"
 	"encoding/json"
 	"flag"
@@ -24,6 +25,7 @@ import (
 	"os/exec"
 	"reflect"
 	"runtime"
+	"runtime/pprof"
 	"sort"
 	"strconv"
 	"strings"
@@ -66,11 +68,22 @@ type Disagreement struct {
 
 // ------------------------------------------------------------------ driver
 
+// driver is one model subprocess. Several case goroutines share it: requests carry an
+// "id" (echoed by Driver/Main.lean), a reader goroutine hands every answer line to the
+// goroutine waiting for that id, and writes are flushed once per burst. Keeping several
+// requests in flight hides the pipe round-trip latency.
 type driver struct {
 	cmd *exec.Cmd
-	in  *bufio.Writer
-	out *bufio.Reader
 	wc  io.WriteCloser
+
+	wmu     sync.Mutex // writer side
+	in      *bufio.Writer
+	flushCh chan struct{}
+
+	pmu     sync.Mutex // pending answers
+	pending map[int]chan []byte
+	nextID  int
+	dead    error
 }
 
 func startDriver(path string) (*driver, error) {
@@ -87,32 +100,116 @@ func startDriver(path string) (*driver, error) {
 	if err := cmd.Start(); err != nil {
 		return nil, err
 	}
-	return &driver{cmd: cmd, in: bufio.NewWriterSize(wc, 1<<16), out: bufio.NewReaderSize(rc, 1<<16), wc: wc}, nil
+	d := &driver{cmd: cmd, wc: wc, in: bufio.NewWriterSize(wc, 1<<16), flushCh: make(chan struct{}, 1), pending: map[int]chan []byte{}}
+	go d.readLoop(bufio.NewReaderSize(rc, 1<<16))
+	go d.flushLoop()
+	return d, nil
+}
+
+var idKey = []byte(`"id":`)
+
+func (d *driver) readLoop(out *bufio.Reader) {
+	for {
+		line, err := out.ReadBytes('\n')
+		if err != nil {
+			d.pmu.Lock()
+			d.dead = fmt.Errorf("driver: %v", err)
+			for id, ch := range d.pending {
+				close(ch)
+				delete(d.pending, id)
+			}
+			d.pmu.Unlock()
+			return
+		}
+		// the request id is the only "id" member whose value is a number (node and
+		// follower ids are decimal strings)
+		id := -1
+		for rest := line; id < 0; {
+			k := bytes.Index(rest, idKey)
+			if k < 0 {
+				break
+			}
+			rest = rest[k+len(idKey):]
+			n, digits := 0, 0
+			for _, ch := range rest {
+				if ch < '0' || ch > '9' {
+					break
+				}
+				n = n*10 + int(ch-'0')
+				digits++
+			}
+			if digits > 0 {
+				id = n
+			}
+		}
+		if id < 0 {
+			var a struct {
+				ID int `json:"id"`
+			}
+			if json.Unmarshal(line, &a) == nil {
+				id = a.ID
+			}
+		}
+		d.pmu.Lock()
+		ch := d.pending[id]
+		delete(d.pending, id)
+		d.pmu.Unlock()
+		if ch != nil {
+			ch <- line
+		}
+	}
+}
+
+func (d *driver) flushLoop() {
+	for range d.flushCh {
+		d.wmu.Lock()
+		_ = d.in.Flush()
+		d.wmu.Unlock()
+	}
 }
 
 func (d *driver) call(req vmap) (vmap, error) {
 	req["engine"] = "codec"
+	ch := make(chan []byte, 1)
+	d.pmu.Lock()
+	if d.dead != nil {
+		d.pmu.Unlock()
+		return nil, d.dead
+	}
+	d.nextID++
+	id := d.nextID
+	d.pending[id] = ch
+	d.pmu.Unlock()
+	req["id"] = id
 	b, err := json.Marshal(req)
 	if err != nil {
 		return nil, err
 	}
-	if _, err := d.in.Write(b); err != nil {
-		return nil, err
+	d.wmu.Lock()
+	_, err = d.in.Write(b)
+	if err == nil {
+		err = d.in.WriteByte('\n')
 	}
-	if err := d.in.WriteByte('\n'); err != nil {
-		return nil, err
-	}
-	if err := d.in.Flush(); err != nil {
-		return nil, err
-	}
-	line, err := d.out.ReadBytes('\n')
+	d.wmu.Unlock()
 	if err != nil {
-		return nil, fmt.Errorf("driver: %v", err)
+		return nil, err
+	}
+	select {
+	case d.flushCh <- struct{}{}:
+	default:
+	}
+	line, ok := <-ch
+	if !ok {
+		return nil, fmt.Errorf("driver died")
 	}
 	var ans vmap
 	if err := json.Unmarshal(line, &ans); err != nil {
 		return nil, fmt.Errorf("driver answer: %v: %s", err, line)
 	}
+	if got, ok := ans["id"].(float64); !ok || int(got) != id {
+		return nil, fmt.Errorf("driver answer for the wrong request: %s", line)
+	}
+	delete(ans, "id")
 	if e, ok := ans["error"]; ok {
 		return nil, fmt.Errorf("driver error: %v", e)
 	}
@@ -120,6 +217,9 @@ func (d *driver) call(req vmap) (vmap, error) {
 }
 
 func (d *driver) close() {
+	d.wmu.Lock()
+	_ = d.in.Flush()
+	d.wmu.Unlock()
 	_ = d.wc.Close()
 	_ = d.cmd.Wait()
 }
@@ -512,6 +612,8 @@ var valueKinds = []string{"entry", "req", "identityReq", "voteReq", "appendReq",
 	"resp", "identityResp", "voteResp", "installSnapResp", "timeoutNowResp", "appendResp", "node", "config",
 	"snapshotMeta", "replication", "info", "taskResp", "adminReq", "msg", "stream"}
 
+var respAlias = map[string]bool{"identityResp": true, "voteResp": true, "installSnapResp": true, "timeoutNowResp": true}
+
 // ------------------------------------------------------------------ canonical form used by the property check
 
 func normalize(v interface{}) interface{} {
@@ -765,7 +867,7 @@ func realDecode(dkind string, b []byte, unwrapMsg bool) vmap {
 }
 
 func choosePrefixes(n int, seed int64) []int {
-	if n <= 48 {
+	if n <= 32 {
 		p := make([]int, n)
 		for i := range p {
 			p[i] = i
@@ -774,7 +876,7 @@ func choosePrefixes(n int, seed int64) []int {
 	}
 	r := rand.New(rand.NewSource(seed))
 	set := map[int]bool{0: true, 1: true, n - 1: true, n - 2: true, n / 2: true}
-	for len(set) < 14 {
+	for len(set) < 10 {
 		switch r.Intn(3) {
 		case 0:
 			set[r.Intn(n)] = true
@@ -930,7 +1032,7 @@ func runValue(c Case, d *driver, res *result) {
 	if nontrivial {
 		res.keys = append(res.keys, kind+"|value|"+sizeBucket(len(b))+"|"+outcome+"|tail"+sizeBucket(len(tail)))
 	}
-	if c.ID%9973 == 0 || c.ID <= 80 && c.ID%19 == 1 {
+	if c.ID%100 == 1 && (c.ID/100)%4001 == 7 || c.ID <= 2000 && c.ID%500 < 30 && c.ID%7 == 1 {
 		res.sample = vmap{"case": c, "real_bytes": hex.EncodeToString(b), "real_decode": real, "model": ans}
 	}
 }
@@ -953,7 +1055,6 @@ func runMalformed(c Case, d *driver, res *result) {
 	}
 	delete(ans, "padded")
 	real := realDecode(c.Kind, b, false)
-	delete(ans, "id")
 	res.evals++
 	if !reflect.DeepEqual(real, map[string]interface{}(ans)) {
 		res.differ(c, "malformed-decode", real, ans, false, "", "outcome on a malformed input differs")
@@ -967,7 +1068,7 @@ func runMalformed(c Case, d *driver, res *result) {
 	}
 	res.h("malformed/" + outcome)
 	res.keys = append(res.keys, c.Kind+"|malformed|"+sizeBucket(len(b))+"|"+outcome)
-	if c.ID%9973 == 0 || c.ID <= 80 && c.ID%19 == 1 {
+	if c.ID%100 == 1 && (c.ID/100)%4001 == 7 || c.ID <= 2000 && c.ID%500 < 30 && c.ID%7 == 1 {
 		res.sample = vmap{"case": c, "real": real, "model": ans}
 	}
 }
@@ -1020,7 +1121,7 @@ func runValueFile(c Case, d *driver, res *result) {
 		}
 	}
 	res.keys = append(res.keys, "valuefile|"+cls(a)+"|"+cls(b)+"|"+outcome)
-	if c.ID%9973 == 0 || c.ID <= 80 && c.ID%19 == 1 {
+	if c.ID%100 == 1 && (c.ID/100)%4001 == 7 || c.ID <= 2000 && c.ID%500 < 30 && c.ID%7 == 1 {
 		res.sample = vmap{"case": c, "real": real, "model": ans}
 	}
 }
@@ -1137,6 +1238,9 @@ func clientResultEqual(real, model vmap) bool {
 // see runMalformed
 const hazardPad = 4096
 
+// generator goroutines (they share one model driver for the base bytes of malformed inputs)
+const generators = 4
+
 type plan struct {
 	perType int
 }
@@ -1190,16 +1294,11 @@ func modelEncode(d *driver, kind string, v interface{}) []byte {
 	return unhex(ans["enc"].(string))
 }
 
-func genCases(seed int64, p plan, d *driver, out chan<- Case) {
-	r := rand.New(rand.NewSource(seed))
-	g := &gen{r: r}
-	tg := &gen{r: r, tame: true}
-	id := 0
-	emit := func(c Case) {
-		id++
-		c.ID = id
-		out <- c
-	}
+// genCases generates rounds first, first+stride, … Round i is a pure function of
+// (seed, i): its PRNG is seeded from both, and its case ids are 100*i+k, so that several
+// generator goroutines produce the same SET of cases as one (only the order of
+// evaluation, which nothing depends on, varies).
+func genCases(seed int64, p plan, first, stride int, d *driver, out chan<- Case) {
 	marshal := func(v interface{}) json.RawMessage {
 		b, err := json.Marshal(v)
 		if err != nil {
@@ -1207,9 +1306,21 @@ func genCases(seed int64, p plan, d *driver, out chan<- Case) {
 		}
 		return b
 	}
-	// interleave the kinds so that a prefix of the run already covers everything
-	for i := 0; i < p.perType; i++ {
+	// every round covers all the kinds, so a prefix of the run already covers everything
+	for i := first; i < p.perType; i += stride {
+		r := rand.New(rand.NewSource(seed*1000003 + int64(i)))
+		g := &gen{r: r}
+		tg := &gen{r: r, tame: true}
+		id := 100 * i
+		emit := func(c Case) {
+			id++
+			c.ID = id
+			out <- c
+		}
 		for _, kind := range valueKinds {
+			if respAlias[kind] && i%4 != 0 {
+				continue // same codec as "resp" (embedded struct): a quarter of the volume each
+			}
 			v, wf := g.value(kind)
 			tail := g.tail()
 			if !wf {
@@ -1217,52 +1328,89 @@ func genCases(seed int64, p plan, d *driver, out chan<- Case) {
 			}
 			emit(Case{Class: "value", Kind: kind, Value: marshal(v), Tail: tail, PSeed: r.Int63(), Wf: wf})
 		}
+		// Cases whose bytes start from a model encoding are finished concurrently (the
+		// encode requests of a round travel together); everything that consumes the round's
+		// PRNG happens here, in order, and each such case gets its own derived PRNG.
+		var jobs sync.WaitGroup
+		later := func(kind string, v interface{}, finish func(b []byte, r *rand.Rand) Case) {
+			id++
+			cid, jseed := id, r.Int63()
+			jobs.Add(1)
+			go func() {
+				defer jobs.Done()
+				c := finish(modelEncode(d, kind, v), rand.New(rand.NewSource(jseed)))
+				c.ID = cid
+				out <- c
+			}()
+		}
 		if i%4 == 0 {
-			// malformed: mutate the REAL encoding of a tame value (every byte small, so that a
+			// malformed: mutate the encoding of a tame value (every byte small, so that a
 			// misread length stays small: the real readBytes allocates what the prefix says)
 			for _, kind := range valueKinds {
 				v, _ := tg.value(kind)
-				b := modelEncode(d, kind, v)
 				dk := decodeKindOf(kind, normalize(v).(vmap))
-				if r.Intn(6) == 0 {
-					b = nil
-					for j := r.Intn(40); j > 0; j-- {
-						b = append(b, byte(r.Intn(4)))
+				later(kind, v, func(b []byte, r *rand.Rand) Case {
+					if r.Intn(6) == 0 {
+						b = nil
+						for j := r.Intn(40); j > 0; j-- {
+							b = append(b, byte(r.Intn(4)))
+						}
+					} else {
+						b = tameMutate(r, b)
 					}
-				} else {
-					b = tameMutate(r, b)
-				}
-				emit(Case{Class: "malformed", Kind: dk, Bytes: hex.EncodeToString(b)})
+					return Case{Class: "malformed", Kind: dk, Bytes: hex.EncodeToString(b)}
+				})
 			}
-			// client: the response the Client reads is the real encoding of a task response
+			// well-formed bytes no Go encoder produces: duplicate ids in a node list / follower
+			// list (the decoders build maps: the last one wins)
+			dc := g.config()
+			if ns := list(dc["nodes"]); len(ns) >= 2 {
+				for k := 1 + r.Intn(2); k > 0; k-- {
+					ns[r.Intn(len(ns))].(vmap)["id"] = ns[r.Intn(len(ns))].(vmap)["id"]
+				}
+			}
+			later("config", dc, func(b []byte, r *rand.Rand) Case {
+				return Case{Class: "malformed", Kind: "config", Bytes: hex.EncodeToString(b)}
+			})
+			di := g.info()
+			if fs := list(di["followers"]); len(fs) >= 2 {
+				fs[r.Intn(len(fs))].(vmap)["id"] = fs[r.Intn(len(fs))].(vmap)["id"]
+			}
+			later("info", di, func(b []byte, r *rand.Rand) Case {
+				return Case{Class: "malformed", Kind: "info", Bytes: hex.EncodeToString(b)}
+			})
+			// client: the response the Client reads is the encoding of a task response
 			av := g.adminReq()
 			typ := map[string]int{"info": 127, "changeConfig": 126, "waitForStable": 125, "takeSnapshot": 124, "transferLdr": 123}[av["kind"].(string)]
 			tr, _ := g.taskResult(typ)
-			rb := modelEncode(d, "taskResp", vmap{"task": typ, "result": tr})
-			if r.Intn(5) == 0 && len(rb) > 0 {
-				rb = rb[:r.Intn(len(rb))]
-			}
-			emit(Case{Class: "client", Value: marshal(av), Bytes: hex.EncodeToString(rb)})
+			later("taskResp", vmap{"task": typ, "result": tr}, func(rb []byte, r *rand.Rand) Case {
+				if r.Intn(5) == 0 && len(rb) > 0 {
+					rb = rb[:r.Intn(len(rb))]
+				}
+				return Case{Class: "client", Value: marshal(av), Bytes: hex.EncodeToString(rb)}
+			})
 		}
 		emit(Case{Class: "valuefile", A: g.u64(), B: g.u64()})
 		if i%2 == 0 {
 			emit(Case{Class: "valueparse", Name: genName(r, g)})
-			// isEntryBuffered: a real entry encoding, cut or extended
-			eb := modelEncode(d, "entry", g.entry())
-			switch r.Intn(4) {
-			case 0:
-				eb = eb[:r.Intn(len(eb)+1)]
-			case 1:
-				eb = append(eb, unhex(g.tail())...)
-			case 2:
-				if len(eb) > 21 {
-					eb = eb[:21+r.Intn(len(eb)-21)]
+			// isEntryBuffered: an entry encoding, cut or extended
+			extra := unhex(g.tail())
+			later("entry", g.entry(), func(eb []byte, r *rand.Rand) Case {
+				switch r.Intn(4) {
+				case 0:
+					eb = eb[:r.Intn(len(eb)+1)]
+				case 1:
+					eb = append(eb, extra...)
+				case 2:
+					if len(eb) > 21 {
+						eb = eb[:21+r.Intn(len(eb)-21)]
+					}
 				}
-			}
-			emit(Case{Class: "buffered", Bytes: hex.EncodeToString(eb)})
+				return Case{Class: "buffered", Bytes: hex.EncodeToString(eb)}
+			})
 		}
+		jobs.Wait()
 	}
-	close(out)
 }
 
 func genName(r *rand.Rand, g *gen) string {
@@ -1305,9 +1453,21 @@ func main() {
 	replay := flag.String("replay", "", "replay a single case file")
 	props := flag.String("props", "", "comma separated property ids (this engine serves C18)")
 	workers := flag.Int("workers", 0, "parallel workers (each with its own driver process)")
+	inflight := flag.Int("inflight", 4, "cases in flight per driver process")
 	perType := flag.Int("n", 0, "values per type (overrides the tier)")
 	allow := flag.String("allow", "", "comma separated finding keys that do not affect the exit code")
+	cpuprofile := flag.String("cpuprofile", "", "write a CPU profile of the engine")
 	flag.Parse()
+	if *cpuprofile != "" {
+		f, err := os.Create(*cpuprofile)
+		if err != nil {
+			fatal(err)
+		}
+		if err := pprof.StartCPUProfile(f); err != nil {
+			fatal(err)
+		}
+		defer pprof.StopCPUProfile()
+	}
 
 	if *props != "" && !strings.Contains(","+*props+",", ",C18,") {
 		fmt.Println("codecdiff: nothing to do for props", *props)
@@ -1345,7 +1505,7 @@ func main() {
 		if err := json.Unmarshal(b, &c); err != nil {
 			fatal(err)
 		}
-		*workers = 1
+		*workers, *inflight = 1, 1
 		go func() { cases <- c; close(cases) }()
 	} else {
 		gd, err := startDriver(*driverPath)
@@ -1354,10 +1514,20 @@ func main() {
 		}
 		go func() {
 			defer gd.close()
-			genCases(*seed, p, gd, cases)
+			var gw sync.WaitGroup
+			for k := 0; k < generators; k++ {
+				gw.Add(1)
+				go func(k int) {
+					defer gw.Done()
+					genCases(*seed, p, k, generators, gd, cases)
+				}(k)
+			}
+			gw.Wait()
+			close(cases)
 		}()
 	}
 
+	dry := os.Getenv("CODECDIFF_DRY") != "" // generator throughput only
 	var wg sync.WaitGroup
 	for w := 0; w < *workers; w++ {
 		d, err := startDriver(*driverPath)
@@ -1368,12 +1538,23 @@ func main() {
 		go func(d *driver) {
 			defer wg.Done()
 			defer d.close()
-			for c := range cases {
-				t0 := time.Now()
-				res := runCase(c, d)
-				res.dur = time.Since(t0)
-				st.merge(c, res)
+			var inner sync.WaitGroup
+			for k := 0; k < *inflight; k++ {
+				inner.Add(1)
+				go func() {
+					defer inner.Done()
+					for c := range cases {
+						if dry {
+							continue
+						}
+						t0 := time.Now()
+						res := runCase(c, d)
+						res.dur = time.Since(t0)
+						st.merge(c, res)
+					}
+				}()
 			}
+			inner.Wait()
 		}(d)
 	}
 	wg.Wait()
@@ -1424,6 +1605,7 @@ func main() {
 		}
 	}
 	if failed {
+		pprof.StopCPUProfile()
 		os.Exit(1)
 	}
 }
